@@ -646,3 +646,12 @@ package raft
 //@   ensures n.r.raftLog.applied >= old(n.r.raftLog.applied) && n.r.raftLog.applied <= n.r.raftLog.committed || n.r.raftLog.applied == old(n.r.raftLog.applied)
 //@   ensures n.r.raftLog.committed == old(n.r.raftLog.committed) && !n.needAdvance
 //@   modifies *
+
+//@ property C03 C02
+// restart: the log object is rebuilt from storage alone: nothing is unstable, the unstable part starts right after
+// the stored log, and commit/applied restart at the compaction point (the hard state then raises commit: loadState)
+//@ func newLogWithSize(storage Storage, logger Logger, maxNextEntsSize uint64) *raftLog
+//@   requires sOK(storage) && ghost(slast, storage) + 1 < 4611686018427387904
+//@   ensures result != nil && fresh(result) && result.storage == storage && len(result.unstable.entries) == 0 && result.unstable.snapshot == nil
+//@   ensures result.unstable.offset == ghost(slast, storage) + 1 && result.committed == ghost(sfirst, storage) - 1 && result.applied == ghost(sfirst, storage) - 1
+//@   ensures lOK(result)
